@@ -1047,7 +1047,7 @@ impl ServerSim {
     /// digest the stub's syscall log of one library call
     fn account_log(&mut self, log: &[LogEntry], st: &mut Stats) -> Result<bool, Violation> {
         let mut progress = false;
-        let mut accepted_now: Vec<(usize, i32, usize)> = Vec::new();
+        let mut accepted_now: Vec<(usize, i32, usize, usize)> = Vec::new();
         // number of stream descriptors open before each accept is reconstructed from the log
         let mut open_streams = {
             // current count minus accepts plus closes in this log = count before the call
@@ -1056,11 +1056,14 @@ impl ServerSim {
             let cls = log.iter().filter(|e| matches!(e, LogEntry::Close { conn: Some(_), .. })).count() as i64;
             (now - acc + cls) as usize
         };
+        // a refusal is justified by 10 held connections at the accept OR at the start of the call
+        // (when the dead connections are reaped within a call is the implementation's choice)
+        let at_call_start = open_streams;
         for e in log {
             match e {
                 LogEntry::Accept { conn, fd } => {
                     progress = true;
-                    accepted_now.push((*conn, *fd, open_streams));
+                    accepted_now.push((*conn, *fd, open_streams, open_streams.max(at_call_start)));
                     open_streams += 1;
                     self.max_open = self.max_open.max(open_streams);
                     // descriptor number re-used while the application still holds a request of a previous owner?
@@ -1162,7 +1165,7 @@ impl ServerSim {
             }
         }
         // refusals: decided from the log (503 written + closed within the same call)
-        for (conn, fd, before) in accepted_now {
+        for (conn, fd, before, before_or_at_start) in accepted_now {
             let refused = log.iter().any(|e| matches!(e, LogEntry::Close { fd: f, conn: Some(c) } if *f == fd && *c == conn));
             let cid = self.conn_to_client.get(conn).cloned().unwrap_or(usize::MAX);
             if let Some(cl) = self.clients.get_mut(&cid) {
@@ -1172,7 +1175,7 @@ impl ServerSim {
                 self.refused += 1;
                 st.fault("F-full:refused_at_capacity");
                 st.probe("ten_open_plus_one_refused");
-                if self.flags.capacity && before < MAX_CONN {
+                if self.flags.capacity && before_or_at_start < MAX_CONN {
                     return Err(self.v(
                         "refused-below-capacity",
                         format!("client {} was refused although only {} connection(s) were held by the server", cid, before),
